@@ -619,18 +619,20 @@ func init() {
 			return []*Term{Implies(t, IGt(App("str.len", IntSort, t.Args[0]), IntI(0)))}
 		}
 		instanceAxioms["addr.str."+k] = func(t *Term) []*Term {
-			if t.Args[0].Op == "addr.of."+k {
-				return []*Term{App("addr.valid."+k, BoolSort, t)}
-			}
+			// the rendering of an address is valid and decodes to that address (also when the address was itself
+			// parsed from a differently spelled string)
 			return []*Term{App("addr.valid."+k, BoolSort, t), Eq(App("addr.of."+k, BytesSort, t), t.Args[0])}
 		}
 		instanceAxioms["addr.of."+k] = func(t *Term) []*Term {
 			// user addresses are never module-derived bridge escrow addresses (idealised address derivation)
 			out := []*Term{Not(App("addr.isModuleDerived", BoolSort, t))}
 			if t.Args[0].Op != "addr.str."+k {
-				// address strings are canonical: a valid string is the rendering of the bytes it decodes to
-				// (the upper-case bech32 spelling of the same address is outside the model)
-				out = append(out, Implies(App("addr.valid."+k, BoolSort, t.Args[0]), Eq(App("addr.str."+k, StrSort, t), t.Args[0])))
+				// a valid string is the rendering of the bytes it decodes to, unless it is one of the non-canonical
+				// spellings of the same address (bech32 also accepts the all-upper-case form): addr.noncanon
+				out = append(out, Implies(And(App("addr.valid."+k, BoolSort, t.Args[0]), Not(App("addr.noncanon", BoolSort, t.Args[0]))),
+					Eq(App("addr.str."+k, StrSort, t), t.Args[0])))
+				// the rendering of any address is canonical
+				out = append(out, Not(App("addr.noncanon", BoolSort, App("addr.str."+k, StrSort, t))))
 			}
 			return out
 		}
